@@ -155,7 +155,7 @@ func replayFile(path string) {
 				injected = &fixedReader{fill: newRng(1, "replay")}
 				swapSource(injected, kind)
 			}
-		case "Reset", "Read", "NewMnemonic", "Recheck":
+		case "Reset", "Read", "NewMnemonic", "Recheck", "Buf", "SourceTotal":
 			// nothing to re-execute
 		default:
 			replayExtra(op, e)
@@ -186,6 +186,7 @@ type pstep struct {
 	Size   int     `json:"size,omitempty"`
 	Var    int     `json:"var,omitempty"`
 	Fill   int     `json:"fill,omitempty"`
+	Src    *int64  `json:"src,omitempty"` // language whose list the sentence is built from (default: Lang)
 }
 
 type program struct {
@@ -205,6 +206,7 @@ func runProgramFile(path string, seed int64) {
 }
 
 var progSrc *scriptReader
+var observeMaps bool
 
 func runProgram(p program, seed int64) {
 	for i, st := range p.Steps {
@@ -227,7 +229,12 @@ func runProgram(p program, seed int64) {
 				}
 				progSrc.fill = newRng(seed, "prog/bytes/"+strconv.Itoa(st.Fill)+"/"+strconv.Itoa(i))
 			}
-			recNewMnemonic(st.N, st.Lang, nil)
+			recNewMnemonic(st.N, st.Lang, Event{"argid": "new/" + strconv.FormatInt(st.N, 10) + "/" + strconv.FormatInt(st.Lang, 10)})
+			if observeMaps {
+				mapLens()
+			}
+		case "observe":
+			observeMaps = true
 		case "maplens":
 			mapLens()
 		case "recheck":
